@@ -461,9 +461,12 @@ def answer_oracle(res, root, docs, responses, evs):
     all_reqs = [s for s in res.script if s[0] == "req"]
     task_of_id = {s[2]: t for s, t in zip(all_reqs, req_spawns)}
     probes = {}
+    second_read = {e["task"] for e in evs if e["ev"] == "ConvertVfs"}
     for e in evs:
-        if e["ev"] in ("ReadVfs", "ReadVfs2", "ConvertVfs", "TaskReturn") and e.get("files") is not None:
-            probes.setdefault(e["task"], []).append(e["files"])
+        if e["ev"] in ("ReadVfs", "ReadVfs2", "ConvertVfs") or (e["ev"] == "TaskReturn" and e["task"] in second_read):
+            # the end-of-task probe only closes the bracket around a SECOND read; a task without one (every kind but
+            # goto-definition/references/rename, and those when they return early) never looks at the store again
+            probes.setdefault(e["task"], []).append(e.get("files") or {})
     for s in reqs:
         t = task_of_id.get(s[2])
         want = {d.uri: fnv(d.hist[s[7][k]]) for k, d in enumerate(docs)}
@@ -794,7 +797,7 @@ def f18_probe(out, seed, n=24):
 def mc(out, tier):
     ok_cfgs = ["c1", "a1", "live2"] + (["c2", "a2", "live", "f18fix"] if tier == "thorough" else [])
     bad_cfgs = {"x_mix": "NoMixture", "x_diag": "Convergence", "x_stale": "Convergence", "x_hold": "NoDeadlock",
-                "x_snap": "IssuedVersion", "x_f18": "NoDeadlock"}
+                "x_snap": "IssuedVersion", "x_null": "AnswerContent", "x_f18": "NoDeadlock"}
     if tier == "thorough":
         bad_cfgs.update({"x_mix1": "NoMixture", "x_diag2": "Convergence", "x_diag3": "Convergence"})
     for c in ok_cfgs:
